@@ -351,8 +351,11 @@ def rule_d_retry(ctx):
     ctx.floor('d', 'retry_state_change_sites', len(st), 1)
     prot = [w.bb for w in st]
     # the Retry arm's other effects: the calls that only the arm makes, recognised by being dominated by the tag check
+    # (the call itself, or the switch testing its verdict kept in a bool local: `let invalid = .. || !is_valid_retry(..); if invalid`)
+    from rules.C04 import retry_tag_check_points, guard_protects_tracking, verdict_false_edges
+    checked = retry_tag_check_points(F, pdp, valid)
     for pat in ('CidQueue::update_initial_cid', 'Session::initial_keys', 'StreamsState::retransmit_all_for_0rtt', 'Connection::discard_space'):
-        prot += [c.bb for c in pdp.calls_to(pat) if any(pdp.dominates(v.bb, c.bb) for v in valid)]
+        prot += [c.bb for c in pdp.calls_to(pat) if any(pdp.dominates(x, c.bb) for x in checked)]
     # counting the Retry (total_authed_packets, idle timer) is an effect of following it: EVERY counting site of the function,
     # wherever it stands, must lie behind the gate and the tag check — a Retry counted before it was validated closes the
     # gate for the genuine one
@@ -361,7 +364,7 @@ def rule_d_retry(ctx):
     prot += [c.bb for c in cnt]
     prot = sorted(set(prot))
     ctx.floor('d', 'retry_effect_sites', len(prot), 4)
-    guard_protects(ctx, 'd', 'retry_only_before_other_server_packets', pdp, _other_packet_seen, prot, what='self.total_authed_packets > 0 (a packet of the server was accepted before this Retry)')
+    guard_protects_tracking(ctx, 'd', 'retry_only_before_other_server_packets', pdp, _other_packet_seen, prot, what='self.total_authed_packets > 0 (a packet of the server was accepted before this Retry)')
     # the gate constant agrees with the counting site.  `> 0` means "another server packet was processed" only if the Retry at
     # hand has not been counted when the gate is read: handle_packet counts protected packets only
     # (c/every_processed_packet_is_counted_unprotected_not_counted_before_validation) and the counting sites of this function
@@ -372,12 +375,9 @@ def rule_d_retry(ctx):
                   'a Retry can be followed without being counted in total_authed_packets: a second Retry then passes the `total_authed_packets > 0` gate and restarts the handshake again')
     for c in valid:
         ok, found = True, False
-        for br in branches(F, pdp):
-            inner, neg = peel_not(br.desc)
-            if is_site(inner, c):
-                found = True
-                t_bad = br.target(1 if neg else 0)
-                ok = ok and all(p not in pdp.reachable_from(t_bad, avoid=[br.bb]) for p in prot) and all(pdp.dominates(br.bb, p) for p in prot)
+        for br, t_bad in verdict_false_edges(F, pdp, c):
+            found = True
+            ok = ok and all(p not in pdp.reachable_from(t_bad, avoid=[br.bb]) for p in prot) and all(pdp.dominates(br.bb, p) for p in prot)
         ctx.check(ok and found, 'd', 'retry_needs_valid_integrity_tag', pdp, c.where(), 'the is_valid_retry == false edge of a dominating branch reaches no Retry state change',
                   'the Retry state changes are reachable without a valid integrity tag (the verdict is not branched on directly, or its false edge reaches them)')
         cid = arg_desc(F, c, 1)
